@@ -16,7 +16,7 @@ import time
 from . import build
 
 OP_NAMES = ["Construct", "DefaultCtor", "Write", "CopyCtor", "MoveCtor", "CopyAssign", "MoveAssign", "ConvertCopy",
-            "ConvertMove", "Dump", "Load", "LoadAssign", "Redump", "Destroy", "Lookup", "Wrap", "LoadTwo", "Swap"]
+            "ConvertMove", "Dump", "Load", "LoadAssign", "Redump", "Destroy", "Lookup", "Wrap", "LoadTwo", "Swap", "Pipe"]
 FAULT_NAMES = ["none", "alloc", "eof", "iothrow", "tear", "cuda"]
 
 
